@@ -161,6 +161,33 @@ impl Cert {
     }
 }
 
+/// Read-only accessors for the external verification harness.
+#[cfg(alpenglow_verif)]
+impl Cert {
+    /// Returns the signers of the two aggregate-signature halves separately.
+    ///
+    /// Single-signature certificates report all signers in the first half.
+    #[must_use]
+    pub fn verif_halves(&self) -> (Vec<ValidatorIndex>, Vec<ValidatorIndex>) {
+        fn half(s: Option<&AggregateSignature>) -> Vec<ValidatorIndex> {
+            s.map(|s| s.signers().collect()).unwrap_or_default()
+        }
+        match self {
+            Self::Notar(n) => (n.agg_sig.signers().collect(), Vec::new()),
+            Self::NotarFallback(n) => (
+                half(n.agg_sig_notar.as_ref()),
+                half(n.agg_sig_notar_fallback.as_ref()),
+            ),
+            Self::Skip(s) => (
+                half(s.agg_sig_skip.as_ref()),
+                half(s.agg_sig_skip_fallback.as_ref()),
+            ),
+            Self::FastFinal(f) => (f.agg_sig.signers().collect(), Vec::new()),
+            Self::Final(f) => (f.agg_sig.signers().collect(), Vec::new()),
+        }
+    }
+}
+
 /// A notarization certificate is an aggregate of a quorum of notar votes.
 #[derive(Clone, Debug, PartialEq, Eq, SchemaRead, SchemaWrite)]
 pub struct NotarCert {
